@@ -327,6 +327,18 @@ def run_conc(scenarios, wd, tag):
         return list(ex.map(one, range(len(scenarios))))
 
 
+def confirm_stuck(txt, r, wd):
+    """A 'never returned' verdict rests on a timeout, and a loaded machine can exceed one: before it is reported the same scenario is run again, alone,
+    with four times the time allowance (twice); the verdict stands only if a call is still blocked then."""
+    if r.get("hung"):
+        return True
+    txt2 = re.sub(r"timeout_ms=(\d+)", lambda m: "timeout_ms=%d" % (4 * int(m.group(1))), txt)
+    for i in range(2):
+        _, r2, _ = run_conc([txt2], wd, "confirm")[0]
+        if r2 is not None and r2["stuck"]:
+            return True
+    return False
+
 K1, K2, K3 = "120607070701010a", "120607070702020b", "120607070703030c"
 
 def _c12_check(ctx):
@@ -361,8 +373,9 @@ def _c12_check(ctx):
             waited += 1
             nontriv.add(txt)
         bad = None
+        if r["stuck"] and not confirm_stuck(txt, r, wd):
+            continue            # slow, not blocked
         if r["stuck"]:
-            ws = [t for t in r["stuck"] if t.startswith("W")]
             bad = "thread(s) %s still blocked %s ms after the schedule although %d later Flush calls succeeded" % (r["stuck"], 1500, r["flushes_in_free_run"])
         else:
             for t in r["threads"]:
@@ -592,6 +605,8 @@ def _lin_check(ctx, gc):
             raise C.CheckError("concdrive failed: " + raw)
         setup, imm = _parse_scn(txt)
         bad = None
+        if r["stuck"] and not confirm_stuck(txt, r, wd):
+            continue            # slow, not blocked: nothing can be concluded from this run
         if r["stuck"]:
             bad = "call(s) %s never returned" % r["stuck"]
         else:
@@ -1280,7 +1295,7 @@ def run_check(prop, tier, seed, replay, t0):
                 texts.append(open(os.path.join(corpus, fn)).read())
     ncorpus = len(texts)
     if replay and not replay.startswith("witness:"):
-        texts = [open(replay).read()]
+        texts = [open(replay).read()] if replay.endswith(".hist") else []     # other replay kinds belong to the property's own driver (spec.extra)
         ncorpus, n = 0, 0
     for _ in range(n):
         w, kw = spec.weights, spec.gen_kw
